@@ -10,6 +10,10 @@
 //     versions with files above level 0 (TestStoreLevels runs only those).
 //   - TestReaderOrderClasses / TestSharedReaderGoroutines (shared_test.go)   one cached reader used
 //     by several users: generated step orders interleaved on one goroutine, and 2-8 real goroutines.
+//   - TestBuilderHistories (builders_test.go) / TestOwnerHistories (owners_test.go)   histories of
+//     builders with failed ends (failed Close, Abandon, injected I/O faults) and several builders open
+//     at once, at the builder API and through the kv flusher / compaction job.
+//   - TestHeldLookups (held_test.go)   FindReaders results of one snapshot held over later lookups.
 //   - FuzzTableReader      native fuzz target (thorough tier): a valid table must read back exactly;
 //     mutated / arbitrary files are informational only (the property says nothing about corrupt files).
 package c15
